@@ -106,6 +106,9 @@ struct Cfg {
     /// input is read once (warm-up), the reader seeks back to the start, and the identical second
     /// pass is measured
     varied: bool,
+    /// two-pass mode: the input lacks the line terminator after its last record
+    #[allow(dead_code)]
+    unterminated: bool,
 }
 
 /// Two-pass mode: blocks of 7 short and 3 long records (same number of lines each), six times. The
@@ -122,6 +125,13 @@ fn run_two_pass(c: &Cfg) -> (u64, bool, usize, u64, String) {
         }
         for _ in 0..3 {
             template.extend_from_slice(&long);
+        }
+    }
+    if c.unterminated {
+        // the end of input is part of steady-state reading too: the last record without its terminator
+        template.pop();
+        if c.crlf {
+            template.pop();
         }
     }
     let data = instantiate(&template);
@@ -374,6 +384,7 @@ fn main() {
             set: r["set"].as_bool().unwrap(),
             mixed: r["mixed"].as_u64().unwrap_or(0) as usize,
             varied: r["varied"].as_bool().unwrap_or(false),
+            unterminated: r["unterminated"].as_bool().unwrap_or(false),
         };
         let a = run_cfg(&c);
         let b = run_cfg(&c);
@@ -397,21 +408,27 @@ fn main() {
                     let mut cap = rl + 1;
                     while cap <= 5 * rl {
                         for set in [false, true] {
-                            cfgs.push(Cfg { format, lines, line_len, crlf, cap, set, mixed: 0, varied: false });
+                            cfgs.push(Cfg { format, lines, line_len, crlf, cap, set, mixed: 0, varied: false, unterminated: false });
                         }
                         for mixed in [1usize, 2, 3, 5] {
-                            cfgs.push(Cfg { format, lines, line_len, crlf, cap, set: true, mixed, varied: false });
+                            cfgs.push(Cfg { format, lines, line_len, crlf, cap, set: true, mixed, varied: false, unterminated: false });
                         }
                         cap += step;
                     }
                     for set in [false, true] {
-                        cfgs.push(Cfg { format, lines, line_len, crlf, cap: 65536, set, mixed: 0, varied: false });
+                        cfgs.push(Cfg { format, lines, line_len, crlf, cap: 65536, set, mixed: 0, varied: false, unterminated: false });
                     }
                     // records of two lengths: every capacity from the long record + 1 to 4 long records
                     let ll = record_bytes(format, lines, 3 * line_len + 2, crlf).len();
                     for cap in (ll + 1..=4 * ll).chain([65536]) {
                         for mixed in [0usize, 1, 3] {
-                            cfgs.push(Cfg { format, lines, line_len, crlf, cap, set: true, mixed, varied: true });
+                            for unterminated in [false, true] {
+                                cfgs.push(Cfg { format, lines, line_len, crlf, cap, set: true, mixed, varied: true, unterminated });
+                            }
+                        }
+                        // single reads only, up to and including the end of the input
+                        for unterminated in [false, true] {
+                            cfgs.push(Cfg { format, lines, line_len, crlf, cap, set: false, mixed: 1, varied: true, unterminated });
                         }
                     }
                 }
@@ -433,9 +450,9 @@ fn main() {
             l.violation(Violation {
                 property: "C18".into(),
                 sig: format!("{}|{}|{}", c.format.name(), if c.varied { "two-lengths" } else if c.mixed > 0 { "mixed" } else if c.set { "record-set" } else { "next" }, what),
-                detail: format!("{} records with {} sequence line(s) of {} bytes (crlf {}), capacity {}, {}: {} heap allocations in the measured window of {} records, {} policy calls; {}", c.format.name(), c.lines, c.line_len, c.crlf, c.cap, if c.varied { format!("blocks of 7 short and 3 long records, second identical pass after seeking back; {} x next() then read_record_set into the reused set, repeated", c.mixed) } else if c.mixed > 0 { format!("{} x next() then read_record_set, repeated", c.mixed) } else if c.set { "reused record set".to_string() } else { "next()".to_string() }, allocs, measured, pol, info),
+                detail: format!("{} records with {} sequence line(s) of {} bytes (crlf {}), capacity {}, {}: {} heap allocations in the measured window of {} records, {} policy calls; {}", c.format.name(), c.lines, c.line_len, c.crlf, c.cap, if c.varied { format!("blocks of 7 short and 3 long records{}, second identical pass after seeking back; {} x next() then {}, repeated until the end of the input", if c.unterminated { " (last record without line terminator)" } else { "" }, c.mixed, if c.set { "read_record_set into the reused set" } else { "nothing else" }) } else if c.mixed > 0 { format!("{} x next() then read_record_set, repeated", c.mixed) } else if c.set { "reused record set".to_string() } else { "next()".to_string() }, allocs, measured, pol, info),
                 weight: (c.cap + c.line_len * 1000) as u64,
-                replay: json!({"kind": "alloc", "format": c.format.name(), "lines": c.lines, "line_len": c.line_len, "crlf": c.crlf, "cap": c.cap, "set": c.set, "mixed": c.mixed, "varied": c.varied}),
+                replay: json!({"kind": "alloc", "format": c.format.name(), "lines": c.lines, "line_len": c.line_len, "crlf": c.crlf, "cap": c.cap, "set": c.set, "mixed": c.mixed, "varied": c.varied, "unterminated": c.unterminated}),
             });
         }
         if idx % 211 == 7 && l.samples.len() < 2 {
@@ -447,7 +464,7 @@ fn main() {
         Report {
             property: "C18".into(),
             tier: args[2].clone(),
-            rule: "formats x uniform record shapes (FASTA 1-3 sequence lines, FASTQ) x line lengths x LF/CRLF x EVERY capacity from record length + 1 to 5 record lengths (and 64 KiB) x {next(), read_record_set into one reused set, mixed use: k x next() then one read_record_set for k in 1,2,3,5}: warm-up over record length + 2 records / batches (a full period of the batch-size pattern), then 3 further periods measured with a counting global allocator (thread-local window) while all borrowed accessors are called: allocation count must be 0, reader capacity and RecordSet::buf_capacity() unchanged in the window and reader capacity = initial capacity (all records fit), policy never consulted in the whole run; PLUS records of two alternating lengths (blocks of 7 short, 3 long, same line count; set sizes go up and down) at every capacity from the long record + 1 to 4 long records (and 64 KiB), reused set alone and mixed with 1 or 3 next() calls: the whole input is read once, the reader seeks back to byte 0 and the identical second pass must not allocate; non-trivial = every configuration (all measure > 0 records)".into(),
+            rule: "formats x uniform record shapes (FASTA 1-3 sequence lines, FASTQ) x line lengths x LF/CRLF x EVERY capacity from record length + 1 to 5 record lengths (and 64 KiB) x {next(), read_record_set into one reused set, mixed use: k x next() then one read_record_set for k in 1,2,3,5}: warm-up over record length + 2 records / batches (a full period of the batch-size pattern), then 3 further periods measured with a counting global allocator (thread-local window) while all borrowed accessors are called: allocation count must be 0, reader capacity and RecordSet::buf_capacity() unchanged in the window and reader capacity = initial capacity (all records fit), policy never consulted in the whole run; PLUS records of two alternating lengths (blocks of 7 short, 3 long, same line count; set sizes go up and down) at every capacity from the long record + 1 to 4 long records (and 64 KiB), reused set alone, mixed with 1 or 3 next() calls, and next() alone, with and without the line terminator after the last record: the whole input is read once up to and including the end, the reader seeks back to byte 0 and the identical second pass must not allocate; non-trivial = every configuration (all measure > 0 records)".into(),
             exhaustive: true,
             assumptions: vec!["allocations of the measured thread only; uniform record streams, or a second identical pass over a stream of two record lengths (records of varying shape may legitimately allocate when a slot of a reused set first meets a record with more lines)".into()],
             extra: json!({"states_note": "states = configurations; transitions = records read inside measured windows"}),
